@@ -270,3 +270,46 @@ func VH_C18_S8_pass_sequence() {
 	s.checkAll("after-restart")
 	s.close()
 }
+
+// C18-S8d: a key deleted TWICE (set, delete, set, delete) so that two tombstones are on disk, the
+// older one inside the collected range of a pass that does not start at file 0 (tombstones
+// are retained there): only the current tombstone may survive, counters account for the
+// superseded one, reads are unchanged, also after a restart with any index subset removed.
+func VH_C18_S8_superseded_tombstone() {
+	s := newScen(768, false, "ka", "kb", "kc")
+	s.distinct = true
+	s.setS("kb")
+	s.setS("kc")
+	s.setS("kb") // file0
+	s.setS("ka")
+	s.del("ka")
+	s.setS("kc") // file1: ka set + first tombstone
+	s.setS("ka")
+	s.del("ka")
+	s.setS("kb") // file2: ka set + second (current) tombstone
+	s.setS("kc") // head
+	s.flush()
+	rebuilt := vrt.Bool("rebuilt-tree")
+	if rebuilt {
+		s.reopen(1 | 2*vrt.Choice("also-hints", 2)) // the rebuilt tree holds no entry for the deleted key
+	}
+	r := [][2]int{{1, 1}, {1, 2}, {2, 2}, {0, 1}, {0, 2}}[vrt.Choice("range", 5)]
+	nBefore, _ := s.countRecords(r[0], r[1])
+	s.gc(r[0], r[1], vrt.Bool("merge"))
+	g := s.bkt().GCHistory[len(s.bkt().GCHistory)-1]
+	s.checkAll("after-gc")
+	// F23: with a rebuilt tree (no entry for deleted keys) a pass that does not start at file 0
+	// keeps every tombstone of its range, superseded ones included
+	s.reclaimedKnown(r[0], r[1], "after-gc", "F23", rebuilt && r[0] > 0)
+	nAfter, _ := s.countRecords(r[0], r[1])
+	moved := 0
+	if r[0] > 0 {
+		// records appended to the earlier file are still stored
+		recs, _ := scanFile(genDataPath(s.dir, r[0]-1))
+		moved = len(recs) - 3
+	}
+	vrt.Assert("released-counter-equals-records-gone", int(g.NumReleased) == nBefore-nAfter-moved)
+	s.reopen(vrt.Choice("rm", 8))
+	s.checkAll("after-gc-restart")
+	s.close()
+}
